@@ -108,7 +108,7 @@ func checkStream(c StreamCase) error {
 	// record that is not a tree stays a Newick file)
 	extra, stdin, infiles, _ := cli.Present(cli.InModes[(len(in.String())+n)%len(cli.InModes)], in.String(), "-i")
 	for name, content := range infiles {
-		cli.Write(dir, name, content)
+		cli.WriteIn(dir, name, content)
 	}
 	args = append(args, extra...)
 	r := cli.Run(dir, stdin, args...)
